@@ -296,6 +296,14 @@ def writer_models(concrete_encoders):
             return err(Agg([], 'FromUtf8Error'))
         return ok(v)
 
+    @reg(r'^(std::string::)?String::from_utf8_lossy$', 'String::from_utf8_lossy: a part cut inside a multi-byte character comes back with U+FFFD in place of the torn bytes; whole texts / ropes of whole texts unchanged')
+    def from_utf8_lossy(ctx, args, callee):
+        v = ctx.deref(args[0]) if isinstance(args[0], Ref) else args[0]
+        if isinstance(v, Chunk) and ctx.decide(v.mid):
+            return EnumV(1, {1: [Str('\ufffd<torn part %d of an encoded record>' % v.idx)]}, 'Cow')
+        from mirsym.models_std import m_from_utf8_lossy
+        return m_from_utf8_lossy(ctx, args, callee)
+
     @reg(r'^(core|std)::slice::<impl \[u8\]>::len$', 'byte length of a text handed to write (fresh, > 0)')
     def bytes_len(ctx, args, callee):
         n = ctx.fresh_bv('nbytes', 64)
@@ -959,7 +967,7 @@ def cli_replay_cells(fmt, vals, dup):
         try:
             t = os.path.join(d, 't'); os.mkdir(t)
             safe = [v for v in vals if v and '/' not in v and '\0' not in v and v not in ('.', '..')]
-            extra = ['a<b>&c', 'q"uo,te', 'x y', 'é€']
+            extra = ['a<b>&c', 'q"uo,te', 'x y', 'é€', 'c\rr', 'T&amp;J']
             made = []
             for v in safe + extra:
                 try:
@@ -980,6 +988,14 @@ def cli_replay_cells(fmt, vals, dup):
             if got != ref:
                 return True, '`%s into %s` decodes to %r, `into list` to %r' % (cols, SQL_FORMAT[fmt], got, ref)
             if fmt == 'Csv':
+                # a record of one empty field (a name without an extension) is `""`, not an empty line
+                def run1(f):
+                    r = subprocess.run([exe, 'ext', 'from', t, 'order', 'by', 'name', 'into', f], env=env, stdout=subprocess.PIPE, stderr=subprocess.PIPE, timeout=20)
+                    return r.stdout.decode('utf-8', 'replace')
+                ref1, _ = decode('list', run1('list'), ['ext'])
+                got1, e1_ = decode('csv', run1('csv'), ['ext'])
+                if got1 != ref1:
+                    return True, '`ext into csv` over files %r decodes to %r (%s), `into list` to %r' % (made, got1, e1_, ref1)
                 # a record longer than the csv writer's buffer, full of two-byte characters: whatever the parity of the cut
                 cur = os.path.join(d, 'deep'); os.mkdir(cur)
                 for i in range(18):
@@ -1003,7 +1019,7 @@ def cli_replay_cells(fmt, vals, dup):
 
 
 # ------------------------------------------------------------------------------------------------ family: protocol
-VALUES = ['r0', 'c\x1bs', 'a<b>&c', 'q"uo,te', 'x\ry\'z', 'e\u0301\u20ac\\', 'tab\there', '{[,]}']
+VALUES = ['r0', 'c\x1bs', 'a<b>&amp;c', 'q"uo,te', 'x\ry\'z', 'e\u0301\u20ac\\', 'tab\there', '{[,]}']
 
 
 def gfv_concrete(ctx, args, callee):
